@@ -18,16 +18,26 @@ def gen_cost(rng, ndim, allow_vector=False):
 
 
 def gen_cons(rng, ndim, box=None):
-    k = rng.choice(["ident", "pin", "clamp", "grid", "tie"])
+    """deterministic, idempotent constraints that map the box (if any) into itself"""
+    kinds = ["ident", "pin", "clamp", "grid"]
+    if box is None or (len(set(box[0])) == 1 and len(set(box[1])) == 1):
+        kinds.append("tie")
+    k = rng.choice(kinds)
     inplace = rng.random() < 0.4
     if k == "pin":
-        c = grid(rng, -1, 1) if box is None else box[0][0] + (box[1][0] - box[0][0]) * rng.choice([0, 0.5, 1])
-        return dict(kind=k, i=0, c=c, inplace=inplace)
+        i = rng.randrange(ndim)
+        c = grid(rng, -1, 1) if box is None else box[0][i] + (box[1][i] - box[0][i]) * rng.choice([0, 0.5, 1])
+        return dict(kind=k, i=i, c=c, inplace=inplace)
     if k == "clamp":
-        lo = grid(rng, -2, 0)
-        return dict(kind=k, lo=lo, hi=lo + rng.choice([0.5, 1, 2]), inplace=inplace)
+        if box is None:
+            lo = grid(rng, -2, 0)
+            return dict(kind=k, lo=lo, hi=lo + rng.choice([0.5, 1, 2]), inplace=inplace)
+        lo, hi = max(box[0]), min(box[1])      # a cube inside every coordinate's range, if there is one
+        if lo > hi:
+            return dict(kind="ident", inplace=inplace)
+        return dict(kind=k, lo=lo, hi=hi, inplace=inplace)
     if k == "grid":
-        return dict(kind=k, q=rng.choice([0.25, 0.5, 1.0]), inplace=inplace)
+        return dict(kind=k, q=0.25 if box is not None else rng.choice([0.25, 0.5, 1.0]), inplace=inplace)
     return dict(kind=k, inplace=inplace)
 
 
@@ -87,6 +97,8 @@ def gen_script(rng, solvers=L.SOLVERS, nops=(3, 9), p_mid=0.5, allow_modes=False
         o = dict(op="SetStrictRanges", lo=box[0], hi=box[1])
         if allow_modes and rng.random() < 0.5:
             o["tight"], o["clip"] = rng.choice([(True, None), (None, True), (True, True), (None, False), (True, False), (False, None)])
+            if o["clip"] is None and o["tight"] and any(l == h for l, h in zip(box[0], box[1])):
+                o["tight"] = None      # symbolic bounds reject a degenerate box (an API error, not a property violation)
         cfg.append(o)
     if constraints and rng.random() < 0.5:
         cfg.append(dict(op="SetConstraints", cons=gen_cons(rng, ndim, box)))
@@ -122,8 +134,12 @@ def gen_script(rng, solvers=L.SOLVERS, nops=(3, 9), p_mid=0.5, allow_modes=False
                 if rng.random() < 0.2:
                     ops.append(dict(op="SetStrictRanges", lo=None, hi=None))
                 else:
-                    b = gen_box(rng, ndim)
-                    ops.append(dict(op="SetStrictRanges", lo=b[0], hi=b[1]))
+                    if box is None:
+                        b = gen_box(rng, ndim) if not any(o["op"] == "SetConstraints" for o in ops) else None
+                    else:
+                        b = ([l - rng.choice([0, 0.5, 1.0]) for l in box[0]], [h + rng.choice([0, 0.5, 1.0]) for h in box[1]])
+                    if b is not None:
+                        ops.append(dict(op="SetStrictRanges", lo=b[0], hi=b[1]))
             elif m == "final":
                 ops.append(dict(op="Finalize"))
             elif m == "exit":
